@@ -1,4 +1,5 @@
 import HcModel.Drv.Tlv8
+import HcModel.Drv.Pair
 /-
   Line-protocol driver of the executable models: one operation per input line
   (`<module> <op> <args…>`), one result per output line. Core Lean only, so it links as `lean_exe`.
@@ -8,6 +9,8 @@ open Hc.Drv
 def step (line : String) : String :=
   match splitTok line with
   | "tlv8" :: rest => Hc.Drv.Tlv8.handle rest
+  | "pairsetup" :: rest => Hc.Drv.Pair.handleSetup rest
+  | "pairverify" :: rest => Hc.Drv.Pair.handleVerify rest
   | _ => "bad-op"
 
 partial def loop (hin hout : IO.FS.Stream) : IO Unit := do
